@@ -868,7 +868,7 @@ func (c *Ctx) normalizeHelpers(all map[*ssa.Function]bool) map[*ssa.Function]boo
 			for _, b := range f.Blocks {
 				for _, in := range b.Instrs {
 					if call, ok := in.(*ssa.Call); ok && site == nil {
-						if cal := call.Call.StaticCallee(); cal != nil && il.cand[cal] && cal != f {
+						if cal := call.Call.StaticCallee(); cal != nil && il.cand[cal] && cal != f && !skipNormalize[rootFn(f).String()] {
 							site, g = call, cal
 						}
 					}
@@ -1225,7 +1225,7 @@ func (il *inliner) finishUp(modFns []*ssa.Function, dead map[*ssa.Function]bool)
 						continue
 					}
 					mc := localClosure(call.Call.Value)
-					if mc == nil {
+					if mc == nil || skipNormalize[rootFn(f).String()] {
 						continue
 					}
 					fn, _ := mc.Fn.(*ssa.Function)
@@ -1303,11 +1303,11 @@ func (il *inliner) finishUp(modFns []*ssa.Function, dead map[*ssa.Function]bool)
 	}
 	for f := range changed {
 		if errs := sanity(f); len(errs) > 0 {
-			panic("helper expansion produced malformed SSA: " + errs[0])
+			panic(normFailure{rootFn(f).String(), "helper expansion produced malformed SSA: " + errs[0]})
 		}
 		for _, af := range f.AnonFuncs {
 			if errs := sanity(af); len(errs) > 0 {
-				panic("helper expansion produced malformed SSA: " + errs[0])
+				panic(normFailure{rootFn(f).String(), "helper expansion produced malformed SSA: " + errs[0]})
 			}
 		}
 	}
